@@ -1,4 +1,5 @@
 """C09 - FFT propagation agrees with DFT propagation; scratch space is transparent."""
+from fractions import Fraction
 from .. import nf, dims, bind
 from ..nf import Poly, Tup, Const, Slice, NONE, TRUE, FALSE
 from ..model import AnalysisError
@@ -113,53 +114,89 @@ def run(chk, repo, tier):
     cfg = {'shape': pair('shape')}
     f, paths, _ = fft_paths(repo, cfg)
     # ---------------------------------------------------------------- C09-a
-    first_ok, det = True, ''
-    n_tilt = 0
-    for p in paths:
-        c0 = p.conds[0][0] if p.conds else None
-        a = c0.single_atom() if isinstance(c0, Poly) else None
-        if a is None or not is_app(a, 'call:propagate._has_tilt') or bound_of(a).get('wavefront') != WF:
-            first_ok, det = False, f'a path starts with {fmt(c0)} instead of the tilt test'
-        if p.status == 'raise' and p.exc == 'NotImplementedError':
-            n_tilt += 1
-            pre = [e for e in p.events if e.kind in ('write',) or (e.kind == 'call' and e.data['callee'] not in
-                                                                   ('propagate._has_tilt',))]
-            if pre or p.conds[0][1] is not True:
-                first_ok, det = False, 'work is done before the tilt refusal'
-    chk.ob('C09-a', 'D-dominance', f.key, 'tilt refusal precedes everything', first_ok and n_tilt == 1,
-           det or 'NotImplementedError is raised before any other step when _has_tilt(wavefront)', f.loc())
-    fh, hp, _ = analyse(repo, 'propagate._has_tilt', types={('sym', 'wavefront'): repo.cls('wavefront.Wavefront')})
-    rets = returns(hp)
     data = nf.attr(WF, 'data')
-    whole = None
-    if len(rets) == 1 and isinstance(rets[0].ret, Poly) and rets[0].ret.single_atom() is not None \
-            and is_app(rets[0].ret.single_atom(), 'any'):
-        # any(<tilt of f> for f in wavefront.data)
-        inner = rets[0].ret.single_atom()[2][0]
-        ia = inner.single_atom() if isinstance(inner, Poly) else None
-        if ia is not None and is_app(ia, ('listcomp', 'genexp')) and len(ia[2]) == 2:
-            body, seq = ia[2]
-            ba = body.single_atom() if isinstance(body, Poly) else None
-            whole = seq == data and ba is not None and ba[0] == 'attr' and ba[2] == 'tilt' and ba[1][0] == 'idx' \
-                and ba[1][1] == data.single_atom() and not rets[0].conds
-    if whole is not None:
-        ok = whole
+
+    def tilt_any(v):
+        """any(<field>.tilt for <field> in wavefront.data) -> True / False (some other sequence) / None (not that form)"""
+        va = v.single_atom() if isinstance(v, Poly) else None
+        if va is None or not is_app(va, 'any') or not isinstance(va[2][0], Poly):
+            return None
+        ia = va[2][0].single_atom()
+        if ia is None or not is_app(ia, ('listcomp', 'genexp')) or len(ia[2]) != 2:
+            return None
+        body, seq = ia[2]
+        ba = body.single_atom() if isinstance(body, Poly) else None
+        return seq == data and ba is not None and ba[0] == 'attr' and ba[2] == 'tilt' and ba[1][0] == 'idx' \
+            and ba[1][1] == data.single_atom()
+    if repo.has_func('propagate._has_tilt'):
+        first_ok, det = True, ''
+        n_tilt = 0
+        for p in paths:
+            c0 = p.conds[0][0] if p.conds else None
+            a = c0.single_atom() if isinstance(c0, Poly) else None
+            if a is None or not is_app(a, 'call:propagate._has_tilt') or bound_of(a).get('wavefront') != WF:
+                first_ok, det = False, f'a path starts with {fmt(c0)} instead of the tilt test'
+            if p.status == 'raise' and p.exc == 'NotImplementedError':
+                n_tilt += 1
+                pre = [e for e in p.events if e.kind in ('write',) or (e.kind == 'call' and e.data['callee'] not in
+                                                                       ('propagate._has_tilt',))]
+                if pre or p.conds[0][1] is not True:
+                    first_ok, det = False, 'work is done before the tilt refusal'
+        chk.ob('C09-a', 'D-dominance', f.key, 'tilt refusal precedes everything', first_ok and n_tilt == 1,
+               det or 'NotImplementedError is raised before any other step when _has_tilt(wavefront)', f.loc())
+        fh, hp, _ = analyse(repo, 'propagate._has_tilt', types={('sym', 'wavefront'): repo.cls('wavefront.Wavefront')})
+        rets = returns(hp)
+        data = nf.attr(WF, 'data')
+        whole = None
+        if len(rets) == 1 and isinstance(rets[0].ret, Poly) and rets[0].ret.single_atom() is not None \
+                and is_app(rets[0].ret.single_atom(), 'any'):
+            # any(<tilt of f> for f in wavefront.data)
+            inner = rets[0].ret.single_atom()[2][0]
+            ia = inner.single_atom() if isinstance(inner, Poly) else None
+            if ia is not None and is_app(ia, ('listcomp', 'genexp')) and len(ia[2]) == 2:
+                body, seq = ia[2]
+                ba = body.single_atom() if isinstance(body, Poly) else None
+                whole = seq == data and ba is not None and ba[0] == 'attr' and ba[2] == 'tilt' and ba[1][0] == 'idx' \
+                    and ba[1][1] == data.single_atom() and not rets[0].conds
+        if whole is not None:
+            ok = whole
+        else:
+            t_in = [p for p in rets if p.ret == TRUE]
+            t_out = [p for p in rets if p.ret == FALSE]
+            ok = len(t_out) == 1 and not t_out[0].conds and len(t_in) >= 1
+            for p in t_in:
+                good = len(p.conds) == 1 and p.conds[0][1] is True
+                c = p.conds[0][0].single_atom() if p.conds and isinstance(p.conds[0][0], Poly) else None
+                good = good and c is not None and c[0] == 'attr' and c[2] == 'tilt' and c[1][0] == 'idx' and \
+                    c[1][1] == data.single_atom()
+                ok = ok and good
+            lps = [lp for p in rets for lp in p.state.loops]
+            ok = ok and any(lp['iter'] == data for lp in lps) if lps else False
+            if not lps and not t_in:
+                ok = None        # neither a loop over the fields nor any(...) over them
+        chk.ob('C09-a', 'D-dominance', fh.key, 'every field of the wavefront is inspected for tilt', ok,
+               '' if ok is not None else f'undecided: result {fmt(rets[0].ret)[:120] if rets else "?"}', fh.loc())
     else:
-        t_in = [p for p in rets if p.ret == TRUE]
-        t_out = [p for p in rets if p.ret == FALSE]
-        ok = len(t_out) == 1 and not t_out[0].conds and len(t_in) >= 1
-        for p in t_in:
-            good = len(p.conds) == 1 and p.conds[0][1] is True
-            c = p.conds[0][0].single_atom() if p.conds and isinstance(p.conds[0][0], Poly) else None
-            good = good and c is not None and c[0] == 'attr' and c[2] == 'tilt' and c[1][0] == 'idx' and \
-                c[1][1] == data.single_atom()
-            ok = ok and good
-        lps = [lp for p in rets for lp in p.state.loops]
-        ok = ok and any(lp['iter'] == data for lp in lps) if lps else False
-        if not lps and not t_in:
-            ok = None        # neither a loop over the fields nor any(...) over them
-    chk.ob('C09-a', 'D-dominance', fh.key, 'every field of the wavefront is inspected for tilt', ok,
-           '' if ok is not None else f'undecided: result {fmt(rets[0].ret)[:120] if rets else "?"}', fh.loc())
+        # the test is written into propagate_fft itself: the first thing every path decides is whether any field carries tilt
+        first_ok, det, n_tilt, whole = True, '', 0, None
+        for p in paths:
+            c0 = p.conds[0][0] if p.conds else None
+            t = tilt_any(c0) if c0 is not None else None
+            whole = t if whole is None else (whole and t)
+            if t is None:
+                first_ok, det = None, f'a path starts with {fmt(c0)[:100]}: not recognised as the tilt test'
+                break
+            if p.status == 'raise' and p.exc == 'NotImplementedError':
+                n_tilt += 1
+                pre = [e for e in p.events if e.kind == 'write' or (e.kind == 'call' and str(e.data.get('callee')) not in
+                                                                    ('builtin:any', 'ext:numpy.any', 'any', 'ext:any'))]
+                if pre or p.conds[0][1] is not True:
+                    first_ok, det = False, 'work is done before the tilt refusal: ' + ', '.join(str(e.data.get('callee') or e.data.get('how')) for e in pre[:3])
+        chk.ob('C09-a', 'D-dominance', f.key, 'tilt refusal precedes everything',
+               (first_ok and n_tilt == 1) if first_ok is not None else None,
+               det or 'NotImplementedError is raised before any other step when a field carries tilt', f.loc())
+        chk.ob('C09-a', 'D-dominance', f.key, 'every field of the wavefront is inspected for tilt', whole,
+               'any(field.tilt for field in wavefront.data)' if whole else '', f.loc())
 
     # ---------------------------------------------------------------- C09-b / c
     fs_call = None
@@ -347,10 +384,11 @@ def run(chk, repo, tier):
     if len(rets) != 1:
         raise AnalysisError('_fft2: expected a single path')
     r = rets[0].ret
-    a = r.single_atom() if isinstance(r, Poly) else None
+    FFT2 = ('fft.fft2', 'scipy.fft.fft2', 'scipy.fftpack.fft2', 'fft.fftn', 'scipy.fft.fftn')
+    SHIFTS = ('fft.fftshift', 'fft.ifftshift', 'scipy.fft.fftshift', 'scipy.fft.ifftshift')
     nest = None
     norm = None
-    ffts = [x for x in nf.value_atoms(r) if is_app(x, 'fft.fft2')]
+    ffts = [x for x in nf.value_atoms(r) if is_app(x, FFT2)]
     if len(ffts) != 1:
         raise AnalysisError(f'_fft2: expected exactly one fft2 in the result, found {len(ffts)}')
     for extra in ffts[0][2][1:]:
@@ -358,19 +396,44 @@ def run(chk, repo, tier):
             for pr in extra.items:
                 if isinstance(pr, Tup) and pr.items[0] == Const('norm'):
                     norm = pr.items[1]
-    if a is not None and is_app(a, ('fft.fftshift', 'fft.ifftshift')):
-        outer = a[1]
+    # the transform may carry a scalar factor (a normalisation applied by hand)
+    outers = [x for x in (r.atoms(deep=False) if isinstance(r, Poly) else []) if is_app(x, SHIFTS)]
+    a = outers[0] if len(outers) == 1 else None
+    scale = r / Poly.atom(a) if a is not None else None
+    if a is not None:
+        outer = a[1].split('.')[-1]
         mid = a[2][0].single_atom() if isinstance(a[2][0], Poly) else None
-        if mid is not None and is_app(mid, 'fft.fft2'):
+        if mid is None and isinstance(a[2][0], Poly) and len(a[2][0].terms) == 1:
+            # shift(c * fft2(..)): the factor commutes with the roll
+            inner_f = [x for x in a[2][0].atoms(deep=False) if is_app(x, FFT2)]
+            if len(inner_f) == 1:
+                mid = inner_f[0]
+                scale = scale * (a[2][0] / Poly.atom(mid)) if scale is not None else None
+        if mid is not None and is_app(mid, FFT2):
             inner = mid[2][0].single_atom() if isinstance(mid[2][0], Poly) else None
-            if inner is not None and is_app(inner, ('fft.fftshift', 'fft.ifftshift')) and nf.strip_apps(inner[2][0]) == S('x'):
-                nest = (outer, inner[1])
+            if inner is not None and is_app(inner, SHIFTS) and nf.strip_apps(inner[2][0]) == S('x'):
+                nest = (outer, inner[1].split('.')[-1])
     if nest is None:
         chk.undecided('C09-h', 'N-nesting', f2.key, 'origin floor(n/2): un-centre with ifftshift, re-centre with fftshift',
                       f'the centring is not written with fftshift/ifftshift: {fmt(r)[:160]}', f2.loc())
     else:
         chk.ob('C09-h', 'N-nesting', f2.key, 'origin floor(n/2): un-centre with ifftshift, re-centre with fftshift',
-               nest == ('fft.fftshift', 'fft.ifftshift'),
-               f'{nest[0][4:]}(fft2({nest[1][4:]}(x))): ifftshift rolls by -(n//2) and sends index floor(n/2) to 0, fftshift rolls '
+               nest == ('fftshift', 'ifftshift'),
+               f'{nest[0]}(fft2({nest[1]}(x))): ifftshift rolls by -(n//2) and sends index floor(n/2) to 0, fftshift rolls '
                f'by +n//2; the two nestings agree only for even n (reference: tests/test_fourier.py)', f2.loc())
-    chk.ob('C09-h', 'T-keyword', f2.key, "norm='ortho'", norm == Const('ortho'), f'norm={norm!r}', f2.loc())
+    # unitary: norm='ortho', or the plain transform divided by sqrt(rows*cols) of the plane - for rectangular planes too
+    xs = nf.attr(S('x'), 'shape')
+    n0, n1 = nf.index(xs, C(0)), nf.index(xs, C(1))
+    by_hand = [(n0 * n1).pow(Fraction(-1, 2)), (nf.attr(S('x'), 'size')).pow(Fraction(-1, 2)),
+               nf.app('prod', xs).pow(Fraction(-1, 2))]
+    if scale is None:
+        unitary, detu = None, f'norm={norm!r}; overall factor not isolated in {fmt(r)[:120]}'
+    elif norm == Const('ortho'):
+        unitary, detu = scale == C(1), f"norm='ortho', extra factor {fmt(scale)}"
+    elif norm in (None, Const('backward')):
+        unitary = scale in by_hand
+        detu = f'norm={norm!r}, factor applied by hand {fmt(scale)}' + ('' if unitary else
+                                                                        ' (unitary needs 1/sqrt(rows*cols) of the transformed plane)')
+    else:
+        unitary, detu = False, f'norm={norm!r}'
+    chk.ob('C09-h', 'T-keyword', f2.key, "the transform is unitary (norm='ortho')", unitary, detu, f2.loc())
